@@ -133,7 +133,23 @@ def timer_context(u: U):
     exit_ = u.load(HLP, "TimerContext.__exit__", globals={"asyncio": _asyncio})
     fire = u.load(HLP, "TimerContext.timeout")
     u.loop("helpers:TimerContext.timeout", 0, unroll=True, bound=3)
-    scenario = u.choose(4, "scenario")
+    scenario = u.choose(5, "scenario")
+    if scenario == 4:
+        # the same task enters twice (ClientSession._request holds the timer around a hop, ClientResponse.start enters
+        # it again for the header wait), leaves the inner block - and is still inside the outer one when the timer fires
+        u.call(enter, tc)
+        u.call(enter, tc)
+        o = u.call(exit_, tc, None, None, None)
+        u.check("C18.timer.inner_exit_ok", o.ok, repr(o))
+        u.call(fire, tc)
+        u.check("C18.timer.nested_blocks_of_one_task_stay_covered", t.cancels == 1,
+                "a task that left an inner `with timer:` block is still inside the outer one: the deadline still cancels "
+                "it (else every later phase of the request - the next hop's pool wait, DNS, connect - runs unbounded)")
+        o = u.call(exit_, tc, asyncio.CancelledError, asyncio.CancelledError(), None)
+        u.check("C18.timer.nested_cancel_becomes_timeout", (not o.ok) and isinstance(o.exc, asyncio.TimeoutError),
+                "... and leaves the outer block as TimeoutError")
+        u.check("C18.timer.nested_exit_untracks", not fields(tc)["_tasks"], "nothing stays tracked afterwards")
+        return
     if scenario == 0:
         # timer fires while the task is inside
         o = u.call(enter, tc)
